@@ -4,14 +4,15 @@ usage: seed_eval.py <seed id> <property> [tier] ; records the outcome in /verif/
 import json, os, re, subprocess, sys, time
 sid, prop = sys.argv[1], sys.argv[2]
 tier = sys.argv[3] if len(sys.argv) > 3 else "quick"
-d = "/verif/seeded/%s" % sid
+HOME = os.environ.get("VERIF_HOME", "/verif")
+d = "%s/seeded/%s" % (HOME, sid)
 wt = "/tmp/seedeval-%s-%d" % (sid, os.getpid())
 subprocess.run(["git", "-C", "/repo", "worktree", "add", "-q", "--detach", wt, "HEAD"], check=True)
 try:
     subprocess.run(["git", "-C", wt, "apply", os.path.join(d, "patch.diff")], check=True)
     t0 = time.time()
-    env = dict(os.environ, VERIF_REPO=wt, VERIF_EVIDENCE_DIR="/tmp/seedeval-evidence")
-    r = subprocess.run(["/verif/bin/check", prop, tier], env=env, capture_output=True, text=True, cwd="/verif")
+    env = dict(os.environ, VERIF_REPO=wt, VERIF_EVIDENCE_DIR="/tmp/seedeval-evidence-%d" % os.getpid())
+    r = subprocess.run([HOME + "/bin/check", prop, tier], env=env, capture_output=True, text=True, cwd=HOME)
     keys = sorted(set(re.findall(r"violation (\S+?):", r.stderr)))
     out = dict(check=prop, tier=tier, exit=r.returncode, detected=r.returncode == 1, violation_keys=keys, wall_s=round(time.time() - t0, 1),
                first_lines=(r.stdout + r.stderr).strip().splitlines()[:6])
@@ -27,7 +28,7 @@ meta.setdefault("confirmed", json.load(open(os.path.join(d, "confirm.json"))) if
 meta.setdefault("evaluations", [])
 meta["evaluations"] = [e for e in meta["evaluations"] if not (e["check"] == prop and e["tier"] == tier)] + [out]
 json.dump(meta, open(mp, "w"), indent=1)
-for f in os.listdir("/verif/replays"):
+for f in os.listdir(HOME + "/replays"):
     if f.endswith(".json"):
-        os.remove(os.path.join("/verif/replays", f))
+        os.remove(os.path.join(HOME + "/replays", f))
 print(sid, prop, tier, "DETECTED" if out["detected"] else "MISSED(exit %d)" % r.returncode, keys, "%.0fs" % out["wall_s"])
